@@ -143,6 +143,44 @@ def len_bounds(fs, centre):
     return lo, hi
 
 
+def _d0(ck, facts):
+    """every decomposition step the deterministic drivers choose, on small Clifford+T diagrams: the terms sum to the diagram (qxlib/zxsem.py)"""
+    from .. import zxsem, minirust
+    ck.decided('D0 (evaluation, small scope) "each individual decomposition step replaces a diagram by terms whose values sum to the original": the drivers BssTOnly, BssWithCats (first-T choice) and SpiderCutting and apply_decomp '
+               'with every replace_* function they reach (single-T, symmetric pair, BSS 6 -> 7 terms, magic-5, cat 3 / 4 / 5 / 6 with centre phase 0 and pi and with adjacent legs, spider cutting) interpreted from their HIR on graph-like '
+               'diagrams with 1..7 T-type spiders (all four T-type phases) or a cat state, attached to two context spiders with outputs: the linear maps of the terms, scalars included, sum exactly to the map of the diagram '
+               '(brute-force contraction over exact numbers in Q(e^{i pi/4})); the hard-coded Z[omega] coefficients are thereby checked as values')
+    plan = [('t-spiders', 'vec_graph::Graph', 1), ('cats', 'vec_graph::Graph', 1), ('t-spiders', 'hash_graph::Graph', 11), ('cats', 'hash_graph::Graph', 5)] if ck.tier == 'thorough' else \
+        [('t-spiders', 'vec_graph::Graph', 11), ('cats', 'vec_graph::Graph', 3), ('t-spiders', 'hash_graph::Graph', 97), ('cats', 'hash_graph::Graph', 41)]
+    try:
+        tot, bad, declined = zxsem.run_decomps(facts, plan, procs=16 if ck.tier == 'thorough' else 8)
+    except (minirust.NoEval, minirust.Proceed) as ex:
+        ck.ob3('E3-steps', 'evaluation', None, ck.site('decompose::apply_decomp'), 'the evaluator declined (%s: %s)' % (type(ex).__name__, ex))
+        return
+    by = {}
+    for fam, ty, drv, dia, _a, what in bad:
+        by.setdefault(drv, []).append((ty, dia, what))
+    for drv, _f in zxsem.DRIVERS:
+        fs = by.get(drv, [])
+        site = ck.site('decompose::apply_decomp')
+        for clause, pred in (('terms-sum-to-the-diagram', lambda w: not w.startswith('panics')), ('no-panic', lambda w: w.startswith('panics'))):
+            hit = [f for f in fs if pred(f[2])]
+            if hit:
+                ty, dia, what = hit[0]
+                ck.ob('E3-steps', '%s/%s' % (drv, clause), False, site, 'on the diagram %s (%s) one step of %s: %s [%d such cases in this run]' % (dia, ty.split('::')[0], drv.rsplit('::', 1)[-1], what, len(hit)))
+            else:
+                ck.ob('E3-steps', '%s/%s' % (drv, clause), True, site, '', sample={'driver': drv, 'steps_by_decomposition': tot['per_decomp']} if clause.startswith('terms') else None)
+    ck.floor('E3-steps-decompositions-chosen', len(tot['per_decomp']), 4)
+    ck.floor('E3-steps', tot['steps'], 6000 if ck.tier == 'thorough' else 800)
+    _c1, _c2 = zxsem.oracle_controls()
+    ck.control('E3 oracle: the fast contraction agrees with the reference contraction on a fixed sample of every family', _c1)
+    ck.control('E3 oracle: a diagram with one phase changed, one edge type flipped or the scalar negated is told apart from the original', _c2)
+    if tot['declined'] * 20 > max(1, tot['steps']):
+        k0 = sorted(declined)[0]
+        ck.ob3('E3-steps', 'declined', None, ck.site('decompose::apply_decomp'), 'the evaluator declined %d steps, e.g. %s on %s' % (tot['declined'], k0, declined[k0][1]))
+    ck.note('E3-steps: %d diagrams, %d decomposition steps decided (%s), %d declined' % (tot['diagrams'], tot['steps'], ', '.join('%s %d' % kv for kv in sorted(tot['per_decomp'].items())), tot['declined']))
+
+
 def _run_own(ck):
     facts = ck.facts
     from refs import effects_ref as E
@@ -154,6 +192,7 @@ def _run_own(ck):
                'D6 structural schemas: the pi-normalisation and padding of apply_cat_decomp, cut_spider and reverse_pivot equal their reference effect schemas')
     ck.not_decided('the hard-coded Z[omega] coefficients of the replace_* terms and the sum identities themselves', 'agreement of the final number with the diagram\'s value',
                    'Sherlock / dynamic heuristics float arithmetic', 'the saved-terms clause')
+    _d0(ck, facts)
     # ---- D1
     nsites = 0
     for key in (DEC + 'decompose_graph', DEC + 'try_decompose_by_components'):
